@@ -1093,9 +1093,11 @@ private:
   template <typename TABLE_MODE>
   TwoBuckets snapshot_and_lock_two(const hash_value &hv) const {
     while (true) {
-      // Keep the current hashpower and locks we're using to compute the buckets
-      const size_type hp = hashpower();
+      // Keep the current hashpower and locks we're using to compute the buckets.
+      // The resize counter must be loaded first: a resize completing between
+      // the two loads is then detected by the check made after locking.
       const ResizeCounter resize_counter = load_resize_counter();
+      const size_type hp = hashpower();
       const size_type i1 = index_hash(hp, hv.hash);
       const size_type i2 = alt_index(hp, hv.partial, i1);
       try {
